@@ -111,7 +111,7 @@ theorem attachBundle_ok (h1 : Heap) (d b' : Nat) (idArg : NameArg) (hne : b' ≠
     ∃ q, (h'.cont d).bundles = (h1.cont d).bundles ++ [(q, b')] ∧ (h'.cont d).records = (h1.cont d).records ∧
       (h'.cont d).idMap = (h1.cont d).idMap ∧ (bundlesGet (h1.cont d).bundles q).isSome = false ∧
       (h'.cont b').records = (h1.cont b').records ∧ (h'.cont b').id = some q ∧ (h'.cont b').doc = some d ∧
-      (∀ c, c ≠ d → c ≠ b' → h'.cont c = h1.cont c) ∧ h'.recs = h1.recs := by
+      (∀ c, c ≠ d → c ≠ b' → h'.cont c = h1.cont c) ∧ h'.recs = h1.recs ∧ h'.conts.size = h1.conts.size := by
   unfold attachBundle at hres
   split at hres
   · simp at hres
@@ -141,7 +141,7 @@ theorem attachBundle_ok (h1 : Heap) (d b' : Nat) (idArg : NameArg) (hne : b' ≠
         have e4b : (h3.setCont b' { h3.cont b' with id := some q }).cont b' = { h1.cont b' with id := some q } := by
           rw [cont_setCont_self h3 b' _ hb3, hc3]
         rw [e4d] at hres hnot
-        refine ⟨q, ?_, ?_, ?_, by simpa using hnot, ?_, ?_, ?_, ?_, ?_⟩
+        refine ⟨q, ?_, ?_, ?_, by simpa using hnot, ?_, ?_, ?_, ?_, ?_, ?_⟩
         all_goals rw [← hres]
         · rw [cont_setCont_ne _ b' d _ (Ne.symm hne), cont_setCont_self _ d _ (by simpa [setCont] using hd3)]
         · rw [cont_setCont_ne _ b' d _ (Ne.symm hne), cont_setCont_self _ d _ (by simpa [setCont] using hd3)]
@@ -152,6 +152,7 @@ theorem attachBundle_ok (h1 : Heap) (d b' : Nat) (idArg : NameArg) (hne : b' ≠
         · intro c hcd hcb
           rw [cont_setCont_ne _ b' c _ hcb, cont_setCont_ne _ d c _ hcd, cont_setCont_ne _ b' c _ hcb, hc3]
         · simp [setCont, hvr']
+        · simp [setCont, hv']
 
 /-- **`add_bundle` of a stand-alone bundle**: on success the bundle itself, with all its records, is what the document now
     lists under the resolved identifier, which the document did not use before; the document's own records are untouched -/
@@ -164,7 +165,7 @@ theorem c09_addBundle_attaches_bundle (h : Heap) (d b : Nat) (idArg : NameArg) (
   unfold addBundle at hres
   simp only [hb, Bool.false_eq_true, if_false] at hres
   have hne : b ≠ d := fun e => by rw [e] at hb; rw [hdoc] at hb; cases hb
-  obtain ⟨q, a1, a2, _, a4, a5, a6, _, _, a9⟩ := attachBundle_ok h d b idArg hne hd hbr h' hres
+  obtain ⟨q, a1, a2, _, a4, a5, a6, _, _, a9, _⟩ := attachBundle_ok h d b idArg hne hd hbr h' hres
   exact ⟨q, a1, a2, a4, a5, a6, a9⟩
 
 theorem allInv1_allocCont' (h : Heap) (hn : AllInv1 h) (isDoc : Bool) (id : Option QName) (nss : List Ns) (doc : Option Nat) :
@@ -213,7 +214,7 @@ theorem c09_addBundle_attaches_document (h : Heap) (d b : Nat) (idArg : NameArg)
   rw [f1] at hres
   simp only at hres
   have hne : nb ≠ d := by rw [a1]; exact Nat.ne_of_gt hd
-  obtain ⟨q, c1, c2, _, c4, c5, c6, _, _, c9⟩ := attachBundle_ok h2 d nb idArg hne (by rw [f6, hsz1]; omega)
+  obtain ⟨q, c1, c2, _, c4, c5, c6, _, _, c9, _⟩ := attachBundle_ok h2 d nb idArg hne (by rw [f6, hsz1]; omega)
     (by rw [f6, hsz1, a1]; exact Nat.lt_succ_self _) h' hres
   have hd2 : h2.cont d = h.cont d := by rw [f5 d (Ne.symm hne), a3 d hd]
   subst a1
